@@ -1,12 +1,18 @@
 """Per-property configuration of the check flow."""
-import json, sys
+import json, sys, glob
 from flow import standard
+
+def corpus(pid):
+    return " ".join(sorted(glob.glob(f"/verif/corpus/{pid}/*.ops")))
 
 P = {
     "C13": dict(theorems=["Properties/C13.v"],
                 runs=[dict(cmd="c13", quick=4000, thorough=200000, shards_thorough=4),
-                      dict(cmd="pool3", quick=250, thorough=20000, shards_thorough=4),
+                      dict(cmd="pool3", quick=250, thorough=20000, shards_thorough=4, extra=corpus("C14")),
                       dict(cmd="float", quick=5000, thorough=300000)]),
+    "C14": dict(theorems=["Properties/C14.v"],
+                runs=[dict(cmd="pool3", quick=400, thorough=30000, shards_thorough=6, extra=corpus("C14")),
+                      dict(cmd="float", quick=8000, thorough=400000)]),
 }
 
 
